@@ -466,7 +466,7 @@ def _infeasible_false_return(prog, fi, cfg, from_node: int, r: ast.Return) -> bo
         if cd.polarity not in (True, False):
             continue
         for o, l, rr in atoms_of(cd.test, cd.polarity):
-            if o == "falsy" and l.isidentifier() and _forced_true_flag(prog, fi, cfg, from_node, cd.test, l):
+            if o == "falsy" and l.isidentifier() and _forced_true_flag(prog, fi, cfg, from_node, cd.loc, l):
                 return True
     return False
 
